@@ -660,6 +660,8 @@ func (h httpResp) headers(now time.Time) map[string]string {
 		out["Expires"] = now.Add(-time.Hour).UTC().Format(http.TimeFormat)
 	case "+30":
 		out["Expires"] = now.Add(30 * time.Second).UTC().Format(http.TimeFormat)
+	case "0", "-1":
+		out["Expires"] = h.Expires
 	}
 
 	switch h.Date {
@@ -690,7 +692,7 @@ func (h httpResp) freshness() (remaining time.Duration, explicit bool, storable 
 		var s int
 		fmt.Sscan(h.MaxAge, &s)
 		lifetime, explicit = time.Duration(s)*time.Second, true
-	case h.Expires == "past":
+	case h.Expires == "past", h.Expires == "0", h.Expires == "-1":
 		lifetime, explicit = -time.Hour, true
 	case h.Expires == "+30":
 		lifetime, explicit = 30*time.Second, true
@@ -786,7 +788,8 @@ func TestHTTPResponseCaching(t *testing.T) {
 		h := httpResp{
 			MaxAge:  rapid.SampledFrom([]string{"", "", "0", "5", "60"}).Draw(t, "maxAge"),
 			SMaxAge: rapid.SampledFrom([]string{"", "", "", "600"}).Draw(t, "sMaxAge"),
-			Expires: rapid.SampledFrom([]string{"", "", "past", "+30"}).Draw(t, "expires"),
+			// ("0" and "-1": not a date at all, which means "already expired", RFC 7234, section 5.3)
+			Expires: rapid.SampledFrom([]string{"", "", "past", "+30", "0", "-1"}).Draw(t, "expires"),
 			Date:    rapid.SampledFrom([]string{"", "now", "-20"}).Draw(t, "date"),
 			Age:     rapid.SampledFrom([]string{"", "", "10"}).Draw(t, "age"),
 			NoStore: rapid.IntRange(0, 7).Draw(t, "noStore") == 0,
